@@ -334,6 +334,22 @@ func (s *verifState) checkInv(id string) {
 			nd.Assert(nd.And(got[i].Seq == want[i].seq, got[i].ContentId == want[i].cid), id+".allstore-content")
 		}
 	}
+	// I7: the object pools hold nothing that is still in use, and nothing twice
+	var liveTx []*mcore.Transaction
+	var liveNodes []*mcore.Node[model.File]
+	for t := 0; t < 3; t++ {
+		if tx, ok := s.u.txStore.Get(verifTxIds[t]); ok {
+			liveTx = append(liveTx, tx)
+			for _, k := range verifKeys {
+				liveNodes = append(liveNodes, mcore.VerifNodes(tx, k)...)
+			}
+		}
+	}
+	for _, k := range verifKeys {
+		liveNodes = append(liveNodes, mcore.VerifNodes(&s.u.allStore, k)...)
+	}
+	nd.Assert(mcore.VerifPoolSound(s.u.txPool, liveTx), id+".pool-holds-a-live-transaction-store")
+	nd.Assert(mcore.VerifPoolSound(&s.u.nodePool, liveNodes), id+".pool-holds-a-live-node")
 	// I3/I6: strictly increasing along creation order, all <= counter
 	for i := range s.vs {
 		if i > 0 {
